@@ -17,6 +17,7 @@ import (
 // osext.Chdir, which invalidates that cache; relative inputs such as `buf build proto` are
 // otherwise resolved against the directory of the first command of the process.
 func BufAt(dir string, env map[string]string, stdin io.Reader, args ...string) Out {
+	args = NoDeadline(args)
 	if dir != "" {
 		old, _ := osext.Getwd()
 		if err := osext.Chdir(dir); err != nil {
